@@ -91,4 +91,9 @@ def all_cases(rng, thorough=False):
     """c16_nets.cases followed by the cases of this file (drawn from an rng of their own, so that c16_nets' networks and
     indices do not move)"""
     base = c16_nets.cases(rng, thorough)
-    return base + cases(random.Random(rng.getrandbits(32) ^ 0x0C16), thorough)
+    out = base + cases(random.Random(rng.getrandbits(32) ^ 0x0C16), thorough)
+    # round 5: every accelerated operator kind on ranks 1-6 with positive / negative axis attributes (harness/gen_ranksweep.py),
+    # appended last and drawn from an rng of their own so that the indices above do not move
+    import gen_ranksweep
+
+    return out + gen_ranksweep.c16_cases(random.Random(rng.getrandbits(32) ^ 0x5C16), thorough)
